@@ -865,3 +865,30 @@ def fuse_chain_links(fnode):
                 (stores if isinstance(x.ctx, (ast.Store, ast.Del)) else loads).setdefault(x.id, []).append(x)
     ast.fix_missing_locations(node)
     return node
+
+
+
+def reaching_env(fnode, node):
+    """{name: value} of the plain assignments that precede `node` on its own path: the earlier statements of every statement list that
+    encloses it, inner lists overriding outer ones and later statements overriding earlier ones (branch-local re-bindings are seen by
+    the statements of that branch only)"""
+    par = enclosing_map(fnode)
+    chain = []
+    n = node
+    while n in par:
+        p = par[n]
+        for fld in ("body", "orelse", "finalbody"):
+            lst = getattr(p, fld, None)
+            if isinstance(lst, list) and any(x is n for x in lst):
+                chain.append((lst, [i for i, x in enumerate(lst) if x is n][0]))
+        n = p
+    env = {}
+    for lst, idx in reversed(chain):                       # outermost first
+        for st in lst[:idx]:
+            if isinstance(st, ast.Assign) and len(st.targets) == 1 and isinstance(st.targets[0], ast.Name):
+                env[st.targets[0].id] = st.value
+            elif isinstance(st, (ast.If, ast.For, ast.While, ast.With, ast.Try)):
+                for x in ast.walk(st):                       # a compound statement may re-bind: forget what it assigns
+                    if isinstance(x, ast.Name) and isinstance(x.ctx, (ast.Store, ast.Del)):
+                        env.pop(x.id, None)
+    return env
